@@ -135,3 +135,42 @@ def file_start_variants():
                 text = st + (b.replace("\n", "\r\n") if crlf else b)
                 for style in (False, True):
                     yield gen.cfg_index(0, style), text, ("file-start", st, crlf)
+
+
+def size_boundary_sweep(boundaries=(512, 1024, 4096, 8192, 16384, 65536, 131072), radius=3):
+    """Files whose total size, and whose insertion offset, sweep every value within `radius` of a power-of-two boundary
+    (buffer / chunk sizes are where copy-through loops go wrong)."""
+    for B in boundaries:
+        for d in range(-radius, radius + 1):
+            for where in ("end", "start"):
+                stmt = 'fn f() { info!("boundary {}", 1); }\n'
+                if where == "end":
+                    # insertion offset lands at B + d: pad in front with a comment
+                    off_in_stmt = stmt.index('"') + 1
+                    pad = B + d - off_in_stmt
+                    if pad < 4:
+                        continue
+                    text = "//" + "p" * (pad - 3) + "\n" + stmt
+                else:
+                    # total size B + d: statement first, padding behind
+                    pad = B + d - len(stmt)
+                    if pad < 4:
+                        continue
+                    text = stmt + "//" + "q" * (pad - 3) + "\n"
+                for style in (False, True):
+                    yield gen.cfg_index(0, style), text, ("size-boundary", B, d, where)
+
+
+ODD_CHARS = {"NUL": "\x00", "lone-CR": "\r", "VT": "\x0b", "FF": "\x0c", "NEL": "\u0085", "LS": "\u2028", "PS": "\u2029", "LRM": "\u200e",
+             "ZWSP": "\u200b", "DEL": "\x7f", "NBSP": "\u00a0", "combining": "e\u0301"}
+
+
+def odd_characters():
+    """Unusual but legal characters before a statement, between its arguments, inside the message and after it."""
+    for name, ch in ODD_CHARS.items():
+        shapes = [ch + 'info!("m");\n', 'fn f() {\n' + ch + ' info!("m");\n}\n', 'fn f() { info!(' + ch + '"m"); }\n',
+                  'fn f() { info!("' + ch + 'm"); }\n', 'fn f() { info!("m' + ch + '"); warn!("next"); }\n',
+                  'fn f() { info!(a = 1;' + ch + '"m"); }\n', '// c' + ch + '\nfn f() { info!("m"); }' + ch]
+        for i, text in enumerate(shapes):
+            for style in (False, True):
+                yield gen.cfg_index(0, style), text, ("odd-char", name, i)
